@@ -22,12 +22,24 @@ def margin_delta_table(ix, em, st, outp):
         if not rms:
             continue
         d = None
+
+        def is_pos_direction(x):
+            x = ix.inline(x)
+            return tag(x) == "field" and payload(x)[0] == "direction" and em.is_position_value(kids(x)[0])
         for (at, o, _b, _l) in q.conds:
             ai = ix.inline(at)
-            if tag(ai) == "op" and payload(ai)[0] == "discr" and o[0] == "variant":
-                x = ix.inline(kids(ai)[0])
-                if tag(x) == "field" and payload(x)[0] == "direction" and em.is_position_value(kids(x)[0]):
+            if tag(ai) == "op" and payload(ai)[0] == "discr" and isinstance(o, tuple) and o[0] == "variant":
+                if is_pos_direction(kids(ai)[0]):
                     d = o[1]
+            if tag(ai) == "op" and payload(ai)[0] == "discr" and isinstance(o, tuple) and o[0] == "other" and len(o[1]) == 1 and is_pos_direction(kids(ai)[0]):
+                d = "RemoveFromAmm" if o[1][0] == "AddToAmm" else "AddToAmm"
+            if tag(ai) == "op" and payload(ai)[0] in ("eq", "ne") and len(kids(ai)) == 2 and o in (True, False):
+                # `if direction == Direction::AddToAmm {..} else {..}` spells the same two-way decision
+                for u, v in ((kids(ai)[0], kids(ai)[1]), (kids(ai)[1], kids(ai)[0])):
+                    if is_pos_direction(u) and tag(ix.inline(v)) == "agg" and not kids(ix.inline(v)):
+                        var = payload(ix.inline(v))[1]
+                        same = (payload(ai)[0] == "eq") == o
+                        d = var if same else ("RemoveFromAmm" if var == "AddToAmm" else "AddToAmm")
         md = N(ix, rms[0].args[2])
         table.setdefault(d, set()).add(md)
     return table
@@ -58,13 +70,16 @@ def run(ctx):
         bad = None
         for q in st.ok_paths():
             rms = em.remain_margin_calls(q)
-            ok = False
-            for (at, o, _b, _l) in q.conds:
-                if o is True and tag(at) == "op" and payload(at)[0] == "is_zero":
-                    x = ix.inline(kids(at)[0])
-                    if tag(x) == "field" and payload(x)[0] == "bad_debt" and any(kids(x)[0] == ix.inline(sym.unwrap(e.result)) for e in rms):
-                        ok = True
-            if not ok:
+            wanted = {st.c(sym.field(sym.unwrap(e.result), "bad_debt")) for e in rms}
+
+            def zero_bad_debt(fs, wanted=wanted):
+                # the guard may sit in the handler or in a `require_*` helper it propagates (facts are in entry terms)
+                for (at, o) in fs:
+                    if o is True and tag(at) in ("op", "call") and str(payload(at)[0]).split("::")[-1] == "is_zero" and len(kids(at)) == 1:
+                        if ix.inline(kids(at)[0]) in wanted:
+                            return True
+                return False
+            if not rms or not guards.path_satisfies(ix, q, zero_bad_debt, st.m):
                 bad = bad or q
         ctx.inst("R04.1", "no-bad-debt:%s:%s" % (short_fn(st.fn), st.label), bad is None and bool(st.ok_paths()), st.fn.where(),
                  "%d success paths; %s" % (len(st.ok_paths()), "each has bad_debt == 0 of its remain-margin result" if bad is None else
